@@ -8,6 +8,7 @@ import (
 	"bytes"
 	"fmt"
 	"io"
+	"runtime/debug"
 
 	"github.com/maruel/panicparse/v2/stack"
 
@@ -31,6 +32,7 @@ type resumeResult struct {
 	Snaps      []*stack.Snapshot
 	FinalErr   error
 	Panic      any
+	PanicStack string
 	NoProgress bool
 	TooMany    bool
 	Reads      int
@@ -40,14 +42,19 @@ type resumeResult struct {
 // ends the loop and the remainder is flushed); otherwise the loop continues
 // after parse errors as a tolerant caller would.
 func resumeAll(data []byte, opts *stack.Opts, chunks []int, rest int, stopOnErr bool, maxCalls int) (res *resumeResult) {
+	return resumeAllSrc(&sched.Scripted{Data: data, Chunks: chunks, Rest: rest}, opts, stopOnErr, maxCalls)
+}
+
+// resumeAllSrc is resumeAll over a prepared scripted source (fault modes).
+func resumeAllSrc(src *sched.Scripted, opts *stack.Opts, stopOnErr bool, maxCalls int) (res *resumeResult) {
 	res = &resumeResult{}
-	src := &sched.Scripted{Data: data, Chunks: chunks, Rest: rest}
 	var tr []sched.Event
 	ch := &sched.Chain{Src: src, Trace: &tr}
 	var out bytes.Buffer
 	defer func() {
 		if p := recover(); p != nil {
 			res.Panic = p
+			res.PanicStack = string(debug.Stack())
 		}
 		res.Out = out.Bytes()
 		res.Reads = src.Calls
